@@ -25,7 +25,8 @@ VARIABLES
   bad,    \* set of [tag, hid, line]
   dead,   \* the current history can no longer be followed
   hid,    \* id of the current history
-  run,    \* 1 = as scripted, 2 = same again, 3 = other Rust types / entry points, 4 = other process
+  run,    \* 1 = as scripted, 2 = same again, 3 = other Rust types / entry points, 4 = other process,
+          \* 5, 6, ... = the same requests on another host (the driver interpreted for a foreign target)
   memo,   \* first build of the current group of runs (same shape history), <<>> if none
   cmemo,  \* what the conversion helper produced in run 1 of the group, one entry per conversion
   cidx,   \* number of conversions seen in the current run
@@ -186,9 +187,12 @@ MemoTags ==
   IF memo = <<>> THEN {}
   ELSE If(memo.variants # e.variants \/ memo.offs # ObsOffs,
           IF run = 3 THEN "C18:layout-depends-on-more-than-the-resolvers-answers"
+          ELSE IF run >= 5 THEN "C18:layout-differs-on-another-host-although-the-resolver-answers-are-the-same"
           ELSE "C19:offsets-differ-between-replays")
-       \cup If(memo.code # e.code_hash \/ memo.disp # e.display_hash,
+       \cup If(run < 5 /\ (memo.code # e.code_hash \/ memo.disp # e.display_hash),
                "C19:generated-text-differs-between-replays")
+       \cup If(run >= 5 /\ memo.disp # e.display_hash,
+               "C18:rendering-of-the-definition-differs-on-another-host")
 
 TraceBuild ==
   /\ ~dead /\ e.ev = "build"
